@@ -34,7 +34,17 @@ RULE = ('template trees over constant/function/table/point atoms, sequence, repe
         '(Fraction, mpq), no-accumulation (counts up to 7e9), ParametrizedRange.to_range over the same box.  Counts '
         '0/1/small/1000/1e6, negative, near-integer, non-integer; ranges empty/single/negative step/non-dividing/zero '
         'step; tables with late first entry, unequal channels, decreasing times; parallel parts equal/different/zero/'
-        'almost equal; missing parameters.  Non-trivial = composite template (depth >= 2) or non-empty range.')
+        'almost equal; missing parameters.  Round 3 (name-coincidence / aliasing classes): MappingPT parameter mappings '
+        'that re-use the names they map (exchange {a: b, b: a}, 3-cycle, chained {a: b+1, b: 2*a}, a name mapped to an '
+        'expression of itself {x: 2*x}, {a: a+b}, shadowing {a: b}), nested mappings (flattened by the constructor), the '
+        'loop index rebound between ForLoopPT and its body, a loop index named like a parameter used outside the loop; '
+        'channel mappings at every MappingPT, at the root and in create_program: renamings that change the sort order, '
+        'exchange of two channel names, an additional channel that is dropped, {} vs. not declared; deterministic '
+        'families "remap" (9 mappings x weights x values x 6 contexts) and "drop" (tables / point pulses / constants / '
+        'parallel compositions with 2-3 channels of different length, every single channel incl. the LONGEST one and '
+        'pairs dropped or renamed by MappingPT / root mapping / create_program; atoms with all channels dropped); equal '
+        'sub-templates built as ONE Python object (aliasing, 30 %), the same sub-template twice in a sequence.  '
+        'Non-trivial = composite template (depth >= 2) or non-empty range.')
 TRUSTED = [
     'Coq 8.16.1 kernel + vm_compute (no native_compute)',
     'sympy (Sum/Piecewise/Max/ceiling construction, subs, doit) as the oracle for the exact value of a duration '
@@ -50,9 +60,11 @@ ASSUMPTIONS = [
     'rational literals 1/k are generated only for k in {2,4,8} (exact as Python floats) and k in {3,5} (not judged)',
     'isclose() of the implementation (double arithmetic on float(a), float(b)) is modelled with exact rationals; generated '
     'durations stay away from the 1e-9 relative boundary (equal, < 1e-12 apart, or > 1e-4 apart)',
-    'to_waveform raising on leaves with different channel sets is not modelled (known findings marked model_diverges); '
     'duration.evaluate_in_scope (lambdified float evaluation) is judged by the Python-side oracle only',
-    'measurements, channel/measurement mappings and volatile counts are exercised but not modelled (the model ignores them)',
+    'channel names are numbered by the harness in their string sort order (qupulse sorts the parts of a parallel '
+    'waveform by channel name); an ArithmeticWaveform / TransformingWaveform is modelled as one entry per channel with '
+    'a common duration (equivalent for "duration of the first part" because parallel parts have disjoint channels)',
+    'measurements, measurement mappings and volatile counts are exercised but not modelled (the model ignores them)',
 ]
 
 TIME_DECIMALS = ['0.1', '0.2', '0.25', '0.5', '1', '1.5', '2', '2.5', '3', '0.125', '10', '0.3', '1.375', '7', '100.001',
@@ -417,7 +429,8 @@ class Gen:
             body = self.atomic(inner_scope, ich, depth, dur=var(x))
         else:
             body = self.tree(inner_scope, ich, depth, force=(kind, x))
-        out = {'t': 'map', 'm': {x: e}, 'body': body}
+        # (an inner mapping may re-bind x without using it: MappingPT rejects mappings of names the body does not have)
+        out = {'t': 'map', 'm': {x: e} if x in free_params(body) else {}, 'body': body}
         if cm is not None:
             out['cm'] = cm
         return out
@@ -860,6 +873,22 @@ def gen_drop_cases(tier):
                             case['rootmap'] = dict(cm)
                     case['tpl'] = tpl
                     cases.append(case)
+    # an atomic template ALL of whose channels are dropped (known finding C04-all-channels-dropped when it lasts > 0):
+    # alone, next to a played sibling, as a part of a parallel composition (that is fine: the other parts are played)
+    c0 = lambda e, ch='c00': {'t': 'const', 'd': e, 'v': {ch: 1}}
+    gone = lambda t, chs: {'t': 'map', 'm': {}, 'cm': {c: None for c in chs}, 'body': t}
+    params = {'tx': tparam('3', 'time'), 'ty': tparam('5', 'time'), 'n_1': tparam('2', 'int')}
+    for tpl in (gone(c0(var('tx')), ['c00']),
+                {'t': 'rep', 'count': var('n_1'), 'body': gone(tab({'c00': 'tx', 'c01': 'ty'}), ['c00', 'c01'])},
+                gone({'t': 'func', 'd': var('tx'), 'ch': ['c00'], 'expr': '1'}, ['c00']),
+                gone(c0(lit(0)), ['c00']),
+                gone({'t': 'multi', 'subs': [c0(var('tx')), c0(var('tx'), 'c01')], 'declared': None}, ['c01']),
+                gone({'t': 'multi', 'subs': [c0(var('tx')), c0(var('tx'), 'c01')], 'declared': var('tx')}, ['c00']),
+                gone({'t': 'multi', 'subs': [c0(var('tx')), c0(var('ty'), 'c01')], 'declared': None}, ['c00']),
+                gone({'t': 'arith', 'lhs': c0(var('tx')), 'rhs': c0(var('tx')), 'op': '+'}, ['c00'])):
+        cases.append({'kind': 'tpl', 'style': 'exact', 'params': dict(params), 'family': 'drop', 'tpl': tpl})
+    cases.append({'kind': 'tpl', 'style': 'exact', 'params': dict(params), 'family': 'drop', 'cpmap': {'c00': None},
+                  'tpl': {'t': 'seq', 'subs': [c0(var('tx')), c0(var('ty'))]}})
     return cases
 
 
@@ -980,7 +1009,9 @@ def build0(t, singles=None, constraints=None, memo=None):
     if k == 'map':
         if 'cm' in t:
             kw['channel_mapping'] = dict(t['cm'])       # {} ("declared as empty") or a real mapping; absent = not declared
-        return MappingPT(sub(t['body']), parameter_mapping={x: expr_str(e) for x, e in t['m'].items()},
+        inner = sub(t['body'])
+        # sympy may have simplified a name away (t - t): MappingPT rejects mappings of names the body does not have
+        return MappingPT(inner, parameter_mapping={x: expr_str(e) for x, e in t['m'].items() if x in inner.parameter_names},
                          allow_partial_parameter_mapping=True, **kw)
     if k == 'multi':
         return AtomicMultiChannelPT(*[sub(c) for c in t['subs']],
@@ -1407,6 +1438,16 @@ def classify(case, obs):
     if pr is not None and 'err' in pr:
         return None
     sp = c04_spec.spec(case)
+    if sp[0] == 'ok' and not sp[2] and index_captured(case['tpl']) and obs.get('sym') is not None and F(obs['sym']) != sp[1] \
+            and ((pr is None and sp[1] == 0) or (pr is not None and F(pr['loop']) == sp[1] and F(pr['pieces']) == sp[1])):
+        # only the duration EXPRESSION is wrong: a mapping around a for-loop substitutes an expression that contains
+        # the loop index's name, the Sum's bound variable captures it
+        return 'C04-forloop-index-capture'
+    if sp[0] == 'ok' and sp[3] and (pr is None or (F(pr['loop']) < sp[1] and F(pr['pieces']) == F(pr['loop'])
+                                                    and pr.get('wf') is not None and F(pr['wf']) == F(pr['loop']))) \
+            and (obs.get('sym') is None or F(obs['sym']) == sp[1]):
+        # an atomic template none of whose channels is played lasts > 0: the program is consistently shorter
+        return 'C04-all-channels-dropped'
     if sp[0] == 'ok' and pr is not None and pr.get('wf', 0) is None and has_func_in_parallel(case['tpl']):
         return 'C04-zero-length-function-leaf'
     if sp[0] != 'undef':
@@ -1414,6 +1455,20 @@ def classify(case, obs):
     if sp[1] == 'non_integer' and not c04_spec.near_integer_input(case):
         return None
     return FINDING_OF_REASON.get(sp[1])
+
+
+def index_captured(t, names=frozenset()):
+    """a for-loop whose index name occurs in a right hand side of a parameter mapping that encloses the loop"""
+    def ev(e):
+        if 'var' in e:
+            return {e['var']}
+        return set().union(*[ev(e[k]) for k in ('a', 'b') if k in e and isinstance(e[k], dict)])
+    if t['t'] == 'map' and t['m']:
+        names = names | set().union(*[ev(e) for e in t['m'].values()])
+    if t['t'] == 'for' and t['idx'] in names:
+        return True
+    return any(index_captured(c, names) for c in t.get('subs', [])) or \
+        any(index_captured(t[key], names) for key in ('body', 'lhs', 'rhs') if key in t)
 
 
 def for_with_parameter_bound(t):
@@ -1430,6 +1485,83 @@ def has_func_in_parallel(t, inside=False):
     inside = inside or k in ('multi', 'arith')
     return any(has_func_in_parallel(c, inside) for c in t.get('subs', [])) or \
         any(has_func_in_parallel(t[key], inside) for key in ('body', 'lhs', 'rhs') if key in t)
+
+
+def _candidates(t):
+    """smaller templates: a node replaced by one of its children, a list shortened, a mapping entry removed"""
+    for key in ('body', 'lhs', 'rhs'):
+        if key in t:
+            yield t[key]
+            for c in _candidates(t[key]):
+                yield {**t, key: c}
+    if 'subs' in t:
+        for i, c in enumerate(t['subs']):
+            yield c
+            if len(t['subs']) > 1:
+                yield {**t, 'subs': t['subs'][:i] + t['subs'][i + 1:]}
+            for c2 in _candidates(c):
+                yield {**t, 'subs': t['subs'][:i] + [c2] + t['subs'][i + 1:]}
+    if t['t'] == 'map':
+        for k in list(t.get('m', {})):
+            yield {**t, 'm': {a: b for a, b in t['m'].items() if a != k}}
+        for k in list(t.get('cm') or {}):
+            yield {**t, 'cm': {a: b for a, b in t['cm'].items() if a != k}}
+    if t.get('meas'):
+        yield {k: v for k, v in t.items() if k != 'meas'}
+    if t['t'] == 'table' and len(t['chans']) > 1:
+        for c in t['chans']:
+            yield {**t, 'chans': {a: b for a, b in t['chans'].items() if a != c}, 'v': {a: b for a, b in t['v'].items() if a != c},
+                   'interp': {a: b for a, b in t['interp'].items() if a != c}}
+
+
+def _fails(case, obs):
+    """Python-side mirror of check_spec (c04_spec.den) for shrinking: does the observation contradict the denoted
+    duration (or, where nothing is denoted, itself)?"""
+    if 'prog' not in obs:
+        return 'crash' in obs
+    sp = c04_spec.spec(case)
+    if sp[2]:
+        return False
+    pr = obs['prog']
+    if pr is not None and 'err' in pr:
+        return False
+    got = [F(0)] * 3 if pr is None else [F(pr['loop']), None if pr['wf'] is None else F(pr['wf']), F(pr['pieces'])]
+    if sp[0] == 'ok':
+        return any(g != sp[1] for g in got) or (obs.get('sym') is not None and F(obs['sym']) != sp[1]) \
+            or isinstance(py_spec(case, obs), str)
+    return len(set(got)) > 1 or (obs.get('sym') is not None and got[0] != F(obs['sym']))
+
+
+def shrink(case, obs, ctx=None):
+    """greedy structural shrinking of a failing template case: keep a smaller candidate while the implementation's
+    observation still contradicts the specification with the same classification"""
+    if case.get('kind') != 'tpl' or not _fails(case, obs):
+        return case, obs
+    want = classify(case, obs)
+    budget = 150
+    improved = True
+    while improved and budget > 0:
+        improved = False
+        variants = [{**case, 'tpl': t} for t in _candidates(case['tpl'])]
+        variants += [{k: v for k, v in case.items() if k != x} for x in ('rootmap', 'cpmap', 'measmap', 'volatile', 'alias') if x in case]
+        for cand in variants:
+            budget -= 1
+            if budget <= 0:
+                break
+            if cand.get('rootmap') is None:
+                cand.pop('measmap', None)
+            used = free_params(cand['tpl'])
+            cand = {**cand, 'params': {k: v for k, v in cand['params'].items() if k in used}}
+            try:
+                o2 = run_impl(cand)
+            except Exception:
+                continue
+            if 'crash' in o2 and 'crash' not in obs:
+                continue
+            if _fails(cand, o2) and classify(cand, o2) == want:
+                case, obs, improved = cand, o2, True
+                break
+    return case, obs
 
 
 def search_failing(ctx, broken):
@@ -1459,16 +1591,20 @@ def search_failing(ctx, broken):
 
 MANIFEST = {
     'level_text': 'Proof (Coq, unbounded in tree shape, counts, ranges, parameters; ALL template kinds incl. for-loop closed '
-                  'form, tables, atomic arithmetic, constraints, single-waveform rendering): (1) C04_symbolic_agrees: every '
-                  'class\'s duration expression evaluates to the denoted duration; (2) C04_program_views_agree: Loop.duration = '
-                  'single-waveform duration = sum of pieces = denoted duration, empty program <=> 0; (3) C04_agree: under the '
-                  'tight executable guard (binary and decimal reading of the code\'s comparisons build the same program, '
-                  'and none of the four modelled finding classes is met) the code accepts and all four views equal the '
-                  'symbolic duration, with no reference to the specification; C04_guard_exact: the guard excludes nothing '
-                  'else.  One refuting witness per class (negative count, negative duration, near-integer, unequal parallel '
-                  'parts, binary-vs-decimal reading).  Range closed form for both step signs; no accumulation.  Two further '
-                  'findings of the unchanged code are outside the model (to_waveform raising on a zero-length function '
-                  'leaf; float step count in ForLoopPT.duration.evaluate_in_scope) and are judged by the correspondence only.',
+                  'form, per-channel tables, atomic arithmetic, constraints, single-waveform rendering, MappingPT with '
+                  'simultaneous parameter substitution and channel mappings incl. dropped channels, threaded to the atoms by '
+                  '`resolve`): (1) C04_symbolic_agrees: every class\'s duration expression evaluates to the denoted duration; '
+                  'C04_channel_mapping_irrelevant_for_durations; (2) C04_program_views_agree: Loop.duration = duration of '
+                  'to_waveform (which does not raise) = sum of pieces = denoted duration, empty program <=> 0; (3) C04_agree: '
+                  'under the executable guard (binary and decimal reading of the code\'s comparisons build the same program, '
+                  'none of the five modelled finding classes is met, the leaves define the same channels) the code accepts '
+                  'and all four views equal the symbolic duration, with no reference to the specification; C04_guard_exact.  '
+                  'One refuting witness per class (negative count, negative duration, near-integer, unequal parallel parts, '
+                  'binary-vs-decimal reading, all channels of an atom dropped, zero-length function leaf -> to_waveform '
+                  'raises).  Range closed form for both step signs; no accumulation.  One finding of the unchanged code is '
+                  'outside the model (float step count in ForLoopPT.duration.evaluate_in_scope) and is judged by the '
+                  'correspondence only.  The class "all channels dropped" is guarded at every atom, also where a dropped '
+                  'part of a parallel composition would be harmless (guard not tight there; judged by the correspondence).',
     'level_note': 'Trusted: Coq kernel, sympy as the oracle for the exact value of the closed forms (compared case by case), '
                   'shortest-decimal float conversion (C14), harness.  Binary float arithmetic inside duration expressions '
                   'is outside the property and not judged (counted as excluded_float_arith); isclose is modelled on exact '
